@@ -145,7 +145,13 @@ func cfgDumpFan(f configuration.FanConfig) string {
 	return f.ID + ":" + strings.Join(items, ",")
 }
 
+// cfgDump prints a canonical one-token dump; blanks inside ids are shown as '~' so that the line protocol
+// (space-separated tokens) survives ids with surrounding whitespace
 func cfgDump(c *configuration.Configuration) string {
+	return strings.ReplaceAll(cfgDumpRaw(c), " ", "~")
+}
+
+func cfgDumpRaw(c *configuration.Configuration) string {
 	ss := make([]string, len(c.Sensors))
 	for i, s := range c.Sensors {
 		ss[i] = cfgDumpSensor(s)
